@@ -1,5 +1,5 @@
 (* C15 — weighted trapezoidal weights form a probability measure; uniform instance; weighted midpoint; moment laws. *)
-From Coq Require Import ZArith List QArith Qcanon Bool Arith Lia Lra Lqa.
+From Coq Require Import ZArith List QArith Qcanon Bool Arith Lia Lqa.
 From SG Require Import Base.QcUtil Model.Trap Model.UQ Proofs.TrapBasics Proofs.Trap Proofs.TrapMoments.
 Import ListNotations.
 Open Scope Qc_scope.
